@@ -36,6 +36,7 @@ type HSpec struct {
 	Stubs       []string          `json:"stubs"`
 	Assumptions []string          `json:"assumptions"`
 	NoReplay    bool              `json:"no_replay"`
+	MaxWallS    map[string]int    `json:"max_wall_s"`
 	StubFiles   map[string]string `json:"stub_files"` // native replay only: rewrite (see replay.go)
 }
 
@@ -129,8 +130,13 @@ func runHarness(h HSpec, tier int, seed int64, trace bool, logDir string) *HResu
 	}
 	cfg := Config{Workers: runtime.NumCPU(), TimeoutMs: 60000, MaxSteps: 20_000_000, MaxFanout: 300, MaxPaths: 0,
 		Solver: "z3", Tier: tier, Seed: seed, Trace: trace, LogDir: logDir, MaxWitness: 12}
+	cfg.MaxWallS = 900
 	if tier == 1 {
 		cfg.TimeoutMs = 300000
+		cfg.MaxWallS = 4 * 3600
+	}
+	if v, ok := h.MaxWallS[[]string{"quick", "thorough"}[tier]]; ok {
+		cfg.MaxWallS = v
 	}
 	if h.Solver != "" {
 		cfg.Solver = h.Solver
